@@ -264,7 +264,20 @@ def _touch(node, extra_nodes):
         node.has_default_for(c)
         node.get_input_type(c)
     try:
-        Graph([node] + extra_nodes).inputs
+        G = Graph([node] + extra_nodes)
+        spec = G.inputs
+        # ... and EXECUTE it once: some per-object caches are only filled by a run
+        from hypergraph import SyncRunner
+        vals = {x: 0 for x in spec.required}
+        for ps in spec.entrypoints.values():
+            for x in ps:
+                vals[x] = 0
+        import warnings as _w
+        with _w.catch_warnings():
+            _w.simplefilter("ignore")
+            # mapped parameters want lists
+            mo = set(getattr(node, "map_config", None)[0]) if getattr(node, "map_config", None) else set()
+            SyncRunner().run(G, {k: ([v] if k in mo else v) for k, v in vals.items()}, error_handling="continue", max_iterations=8)
     except Exception:  # noqa: BLE001
         pass
 
